@@ -97,7 +97,13 @@ def gen_world(seed, tier):
             ranges = fixed
             M = 2 * (max(U for _, U in ranges) - min(L for L, _ in ranges))
             consts = [round(rng.uniform(0, M / 2), 2) if M > 0 else 0.0 for _ in ranges]
-            x = add_var("px%d" % r, ranges[0][0], ranges[-1][1], "integer", role="pw_x")
+            if rng.random() < 0.5:
+                # the documented precondition is non-overlapping ranges, not sorted ones
+                perm = list(range(len(ranges)))
+                rng.shuffle(perm)
+                ranges = [ranges[i] for i in perm]
+                consts = [consts[i] for i in perm]
+            x = add_var("px%d" % r, min(L for L, _ in ranges), max(U for _, U in ranges), "integer", role="pw_x")
             y = add_var("py%d" % r, 0, max(consts + [0]) + 1, "continuous", role="defined")
             ops.append({"op": "add_vars", "prefix": "px%d_" % r, "ids": [x], "style": "scalar"})
             ops.append({"op": "add_vars", "prefix": "py%d_" % r, "ids": [y], "style": "scalar"})
